@@ -344,3 +344,33 @@ func (c *Counter) Reset() {
 	c.FailAt = nil
 	c.mu.Unlock()
 }
+
+// View is a second handle on a Store (same prefix, same objects) with an identity of its own: the
+// calls of each tree of a concurrent scenario can be told apart, parked and answered separately.
+type View struct {
+	S     *Store
+	ID    int
+	VGate func(id int, kind, name string) error
+}
+
+var _ mast.Persist = (*View)(nil)
+
+func (v *View) NodeURLPrefix() string { return v.S.NodeURLPrefix() }
+
+func (v *View) Load(ctx context.Context, name string) ([]byte, error) {
+	if v.VGate != nil {
+		if err := v.VGate(v.ID, "load", name); err != nil {
+			return nil, err
+		}
+	}
+	return v.S.Load(ctx, name)
+}
+
+func (v *View) Store(ctx context.Context, name string, b []byte) error {
+	if v.VGate != nil {
+		if err := v.VGate(v.ID, "store", name); err != nil {
+			return err
+		}
+	}
+	return v.S.Store(ctx, name, b)
+}
